@@ -9,6 +9,25 @@ mod st;
 fn main() {
     std::panic::set_hook(Box::new(|_| {}));
     let mode = std::env::args().nth(1).expect("mode");
+    if mode == "emit-profile" {
+        // a small valid processed profile (one process, one thread, one lib, two samples) for `samply load`
+        use fxprof_processed_profile::*;
+        let mut profile = Profile::new("verif", ReferenceTimestamp::from_millis_since_unix_epoch(0.0), SamplingInterval::from_millis(1));
+        let process = profile.add_process("p", 1, Timestamp::from_nanos_since_reference(0));
+        let thread = profile.add_thread(process, 1, Timestamp::from_nanos_since_reference(0), true);
+        let lib = profile.add_lib(LibraryInfo {
+            name: "libx.so".into(), debug_name: "libx.so".into(), path: "/nonexistent/libx.so".into(), debug_path: "/nonexistent/libx.so".into(),
+            debug_id: debugid::DebugId::nil(), code_id: None, arch: None,
+        });
+        profile.add_lib_mapping(process, lib, 0x1000, 0x2000, 0);
+        for t in 0..2u64 {
+            let f = profile.handle_for_frame_with_address(thread, FrameAddress::InstructionPointer(0x1100 + t), CategoryHandle::OTHER, FrameFlags::empty());
+            let st = profile.handle_for_stack(thread, f, None);
+            profile.add_sample(thread, Timestamp::from_nanos_since_reference(t * 1000000), Some(st), CpuDelta::ZERO, 1);
+        }
+        println!("{}", serde_json::to_string(&profile).unwrap());
+        return;
+    }
     let stdin = std::io::stdin();
     let stdout = std::io::stdout();
     let mut out = std::io::BufWriter::new(stdout.lock());
